@@ -128,6 +128,15 @@ func c31Facts(repo string, facts map[string]any) {
 						if x.Op == token.ARROW {
 							add(fn, where, "chan-recv", src(x.X), x.Pos())
 						}
+					case *ast.AssignStmt:
+						// cmd.Stdin = <file>: os/exec calls Fd() on an *os.File it hands to a child
+						for _, l := range x.Lhs {
+							if se, ok := l.(*ast.SelectorExpr); ok && se.Sel.Name == "Stdin" {
+								if id, ok := se.X.(*ast.Ident); ok && id.Name == "cmd" {
+									ctxs = append(ctxs, c31Ctx{fn, where, "exec-stdin"})
+								}
+							}
+						}
 					case *ast.RangeStmt:
 						// `for range ch` cannot be told from a slice syntactically; ignored
 					case *ast.CallExpr:
@@ -193,6 +202,11 @@ func c31Facts(repo string, facts map[string]any) {
 								}
 							case "SetReadDeadline":
 								ctxs = append(ctxs, c31Ctx{fn, where, "SetReadDeadline"})
+						case "Fd":
+							// os.File.Fd puts the file into blocking mode: read deadlines stop working
+							if len(x.Args) == 0 {
+								ctxs = append(ctxs, c31Ctx{fn, where, "Fd-call"})
+							}
 							}
 						}
 					}
